@@ -33,7 +33,7 @@ CHECKS = {
     ),
     "C06": (
         "model_checking",
-        "TLC: OASLaws exponent algebra (CoefficientsInvariant, DefiningIdentities, Composition) with ScaleRho/ScaleV/ScaleLen/Translate/Reorder/Reexpress composed to depth; every emitted behaviour replayed on real AeroPoint scenarios (1-3 surfaces, half models with and without sideslip, mixed-side half models, non-zero CL0), step law checked after every action",
+        "TLC: OASLaws exponent algebra (CoefficientsInvariant, DefiningIdentities, Composition) with ScaleRho/ScaleV/ScaleLen/Translate/Reorder/Reexpress composed to depth; every emitted behaviour replayed on real AeroPoint scenarios (1-3 surfaces, half models with and without sideslip, mixed-side half models, non-zero CL0), step law checked after every action; aircraft-level L and D of TotalAeroPerformance among the observables",
         "Scale-rho, scale-v, scale-length and translation actions are composed exhaustively to depth 2/3 over every scenario class (full/half, left/right, ground, rotation, 1-2 surfaces, compressible); TLC proves the type table consistent with L=qSCL, CM=M/(qS MAC), F=rho Gamma v x l; each behaviour is replayed on the real code and every observable compared with the predicted factor; L/D as components of the summed panel forces and area-weighted aircraft coefficients are checked directly.",
         "Factors 2 and 1/3; translations x,y,z,u (x,z,u with symmetry plane; x,z for a half model with sideslip; u with ground plane); Reorder = spanwise node order reversed (circulations and normals change sign); Reexpress = inputs in knots, radians, slug/ft^3, feet, inches, 1/ft, deg/s; tolerance 1e-9. " + TRUSTED,
         "5 C06, 3.8",
@@ -68,7 +68,7 @@ CHECKS = {
     ),
     "C10": (
         "model_checking",
-        "TLC: KBeam exact integer transcription of the beam element (symmetry, rigid-body null space, DOF permutation meaning, orthonormal frame, closed-form cantilever nodal exactness); every state replayed through the real element chain and the real assembled clamped beam; independent 3-D frame on random beams",
+        "TLC: KBeam exact integer transcription of the beam element (symmetry, rigid-body null space, DOF permutation meaning, orthonormal frame, closed-form cantilever nodal exactness); every state replayed through the real element chain and the real assembled clamped beam; independent 3-D frame on random beams (superposition with mixed-magnitude loads, geometric similarity at model scale: lengths x k, forces x k^2 => displacements x k)",
         "1008 exact element/cantilever cases are model-checked and each is pushed through LocalStiff, LocalStiffPermuted, Transform, LocalStiffTransformed and through AssembleKGroup+SpatialBeamStates as a half-span (clamp = last node) and full-span (clamp = centre node) beam, whose tip displacement must equal the closed form; random beams are compared with an independently assembled Euler-Bernoulli frame (displacements, equilibrium residual, clamp, linearity, Maxwell-Betti, rotation equivariance for tubes).",
         "Directions with rational cosines only in TLC (7 directions incl. swept, dihedral, both signs); E,G,A,I,J small integers; random part: ny 2..11 incl. even-ny full-span user meshes (root node (ny-1) div 2, KBeam.RootIndex), tube and wingbox-like sections, loads ~1e4 N. " + TRUSTED,
         "5 C10, 3.7",
@@ -82,21 +82,21 @@ CHECKS = {
     ),
     "C13": (
         "model_checking",
-        "TLC: KGeom exact rational transcription of the nine mesh transformations and their chain with the documented effects as invariants (1152 cases); every exact state through the real GeometryMesh; random real design-variable values against the same effects; constant B-spline distributions",
+        "TLC: KGeom exact rational transcription of the nine mesh transformations and their chain with the documented effects as invariants (1152 cases); every exact state through the real GeometryMesh; random real design-variable values against the same effects; constant B-spline distributions; y-translation invariance of the B-spline distributions (the interpolant depends on the normalised span station only)",
         "Each design variable alone, on six mesh classes, half and full span, four reference-axis positions: defaults are the identity wherever the dihedral pre-rotation is inert, span sets the extent, sweep/dihedral shear linearly with distance from the root on both sides, taper and chord scale about the reference axis, twist preserves chord length and raises the leading edge, shears translate; the real group must reproduce every exact table entry to 1e-12 and the effects on random meshes/values; equal control points give constant distributions for 1-6 control points (geometry, tube, wingbox groups).",
         "Meshes with chordwise-constant y; twist as Pythagorean (cos,sin), sweep/dihedral as tan; known finding F7 (default chain not the identity for dihedral + non-flat sections); defaults clause also on half meshes whose root is off the symmetry plane (no span key). " + TRUSTED,
         "5 C13, 3.7",
     ),
     "C14": (
         "model_checking",
-        "TLC: KMesh exact rational transcription of the rectangular generator, getFullMesh, the symmetric multi-section generator and unify_mesh with ordering/extent/symmetry/half-full/coincident-edge invariants (222 cases); every state against the real generators; cosine blends, CRM, offsets, 1-4 sections on the code's output",
+        "TLC: KMesh exact rational transcription of the rectangular generator, getFullMesh, the symmetric multi-section generator and unify_mesh with ordering/extent/symmetry/half-full/coincident-edge invariants (222 cases); every state against the real generators; cosine blends, CRM, offsets, 1-4 sections on the code's output; GeomMultiJoin separations of adjacent section edges (zero for coincident edges, the edge offset otherwise, per constrained direction)",
         "Uniform-spacing meshes are exact in TLC and compared node for node; for cosine-spacing blends in [0,1] (uninterpreted Cos), rect and CRM planforms, num_x 2..8 and odd num_y 3..41 the same invariants are evaluated on the code's output: shape, x increasing chordwise, y increasing spanwise, span and root chord, mirror symmetry, offsets as translations, half = left half of full, getFullMesh round trip, coincident section edges, unification = stitched surface (function and component).",
         "Multi-section: symmetric surfaces with the root section last; the unification component needs >= 2 sections. " + TRUSTED,
         "5 C14, 3.7",
     ),
     "C15": (
         "model_checking",
-        "TLC: KStress exact rational transcription of tube/wingbox stress recovery on pure states (non-negative, rigid motion adds nothing, quadratic scaling, closed forms), the KS shift discipline for loose and very tight aggregation parameters, KS history cases (the aggregate depends on the current stresses only) and the upper-skin strength knock-down factor (1636 cases); every state through the real components; random fields and KS bounds up to 1e12 Pa, half of them after another stress state on the same instance",
+        "TLC: KStress exact rational transcription of tube/wingbox stress recovery on pure states (non-negative, rigid motion adds nothing, quadratic scaling, closed forms), the KS shift discipline for loose and very tight aggregation parameters, KS history cases (the aggregate depends on the current stresses only) and the upper-skin strength knock-down factor (1636 cases); every state through the real components; random fields and KS bounds up to 1e12 Pa, half of them after another stress state on the same instance; wingbox section properties (A, Iy, Iz, J, Qz, htop, hbottom, hfront, hrear) against an independent polygon integration of the documented box section under refinement, twist and chord/thickness scaling; failure cases with the knock-down factor",
         "Squared stresses of axial, torsion and constant-curvature states (and combinations with rigid-body motion and scaling) on five element directions equal the closed forms of the element's own section properties; the real VonMisesTube/VonMisesWingbox reproduce every entry; FailureExact = vm/sigma - 1; KS is evaluated for N = 1..400 terms, six magnitude patterns up to 1e12 Pa and four rho values: finite, never below the maximum, at most ln N / rho above it.",
         "Stresses compared squared; Exp/Ln uninterpreted in the spec. " + TRUSTED,
         "5 C15, 3.7",
@@ -110,7 +110,7 @@ CHECKS = {
     ),
     "C17": (
         "model_checking",
-        "TLC: KFunc exact rational transcription of the functionals with their defining identities as invariants (240 cases); every state through the real components; random inputs through TotalPerformance (both values of internally_connect_fuelburn); OASLaws.Reexpress on aerostructural / structural models (other unit system); atmosphere consistency, continuity and component-level histories (one input changed / zeroed on the same instance)",
+        "TLC: KFunc exact rational transcription of the functionals with their defining identities as invariants (240 cases); every state through the real components; random inputs through TotalPerformance (both values of internally_connect_fuelburn); OASLaws.Reexpress on aerostructural / structural models (other unit system); atmosphere consistency, continuity and component-level histories (one input changed / zeroed on the same instance); unit ambiguities among promoted inputs of any library group are violations",
         "Area-weighted coefficients, L = q S CL, drag build-up, residual = 1 - L/W with W = (W0 + structures + fuel) g n, cg = mass-weighted mean, CM = M/(q S MAC_first), lift normal / drag along the free stream for Pythagorean angles, Breguet through the exponent argument; the real Coeffs, TotalLift, TotalDrag, SumAreas, TotalLiftDrag, Equilibrium, CenterOfGravity, MomentCoefficient, LiftDrag, BreguetRange reproduce the table; the atmosphere group is checked for ideal gas, speed of sound, v = M a, Reynolds number, Sutherland viscosity and continuity on a 50 ft grid.",
         "Atmosphere data carry ~4 digits: consistency to 0.2 % (viscosity 2 %); a dropped digit in the pressure table was found and fixed (aa07cb3). " + TRUSTED,
         "5 C17, 3.7",
@@ -124,7 +124,7 @@ CHECKS = {
     ),
     "C12": (
         "model_checking",
-        "TLC: OASCoupled (dataflow of the incompressible and the Prandtl-Glauert coupled group, one feedback per surface, newest-version reads, sweep consistency, FramesSeparated) + TraceCoupled trace validation of recorded real coupled solves (every component execution, fingerprints of all inputs/outputs) + OASWiring on the connection table of real AerostructPoints for every option combination + open-loop re-evaluation (incl. compressible with sideslip), solver/guess/order/previous-point independence (NLBGS, Aitken, true-residual NLBGS, Newton), multipoint isolation, rigid limit",
+        "TLC: OASCoupled (dataflow of the incompressible and the Prandtl-Glauert coupled group, one feedback per surface, newest-version reads, sweep consistency, FramesSeparated) + TraceCoupled trace validation of recorded real coupled solves (every component execution, fingerprints of all inputs/outputs) + OASWiring on the connection table of real AerostructPoints for every option combination + the struct_states load wiring for all eight combinations of struct_weight_relief x distributed_fuel_weight x point masses + open-loop re-evaluation (incl. compressible with sideslip, two surfaces, per-surface LoadTransfer), solver/guess/order/previous-point independence (NLBGS, Aitken, true-residual NLBGS, Newton), multipoint isolation, rigid limit",
         "The required dataflow of the coupled group is a spec-level table checked for 1-3 surfaces; real coupled solves (NLBGS, NLBGS+Aitken, Newton; 1-2 surfaces; tube/wingbox; weight relief) are recorded by external wrappers and every event is validated against the wires and the sweep order by TLC (a corrupted fingerprint or swapped execution is rejected: binding demonstration run on every check); converged states are re-evaluated open loop with stand-alone instances of the code's own groups; nine nonlinear x linear solver combinations, perturbed initial guesses and returning from another design point give the same outputs and totals; point 0 of a two-point model is bit-identical under changes of point 1 and equal to the single-point model; E,G x 10^k converges to the rigid AeroPoint as 1/E.",
         "Relaxed/Newton-updated feedback values are a named deviation of the trace spec (only forward wires are exact there); non-convergent combinations are inconclusive, not violations. " + TRUSTED,
         "5 C12, 3.4, 4.2",
@@ -197,7 +197,7 @@ def main():
         ],
         "checks": checks,
         "not_applicable": na,
-        "notes": "fix: commits in /repo: 82a326b, d58e861 (C03), 6f55fa9 (C06), aa07cb3 (C17), 97ec321, c6862e9 (C01). Known findings F3-F7, F11 in known_findings.json. See DESIGN.md section 6.",
+        "notes": "fix: commits in /repo: 82a326b, d58e861 (C03), 6f55fa9 (C06), aa07cb3 (C17), 97ec321, c6862e9 (C01), 641694b (C20, F14). Known findings F3-F7, F11, F13 in known_findings.json. See DESIGN.md section 6; seeded changes and which check catches which in DESIGN.md section 0.5 and seeded/*/meta.json.",
     }
     with open(os.path.join(HERE, "MANIFEST.json"), "w") as f:
         json.dump(m, f, indent=1)
